@@ -116,6 +116,14 @@ func c06MkBody(r *Rng) string {
 func c06GenTree(r *Rng, root string, index int) *c06Tree {
 	g := GenerateTree(r, root, GenOpts{Packages: 1 + index%3, Hostile: true, Rich: index%5 == 0, Density: 30 + 10*(index%3)})
 	t := &c06Tree{GenTree: g}
+	if index%2 == 0 {
+		// diagnostics in files that pkglint reaches through include chains over sibling directories: the printed
+		// path is the normalised form of a raw path like cat/p0/../other/../../devel/lib/version.mk and must
+		// still name the file (clause "the path names an existing file")
+		if raws := addIncludeChainsC02(r, g); len(raws) > 0 {
+			g.feat("c06.include-chain")
+		}
+	}
 	// more file kinds: doc/CHANGES with entries, a license with hostile content, mk.conf
 	g.put("doc/CHANGES-2018", lines("$"+"NetBSD$", "", "Changes to the packages collection and infrastructure in 2018:", "", "\tUpdated cat/p0 to 1.0 [user 2018-01-05]", "\tAdded cat/gone version 1 [user 2018-01-06]"))
 	g.put("mk/defaults/mk.conf", lines(cvsID, "", "USER_A?=\tvalue", "#USER_B?=\tother"))
